@@ -87,3 +87,13 @@ void m4lint_ctl_H3(mzd_t *M) {
   }
 }
 #endif
+
+/* B7p: parity fold of a 64-bit word that starts at 16: bits 32..63 never reach bit 0 */
+int m4lint_ctl_B7p(word x) {
+  x ^= x >> 16;
+  x ^= x >> 8;
+  x ^= x >> 4;
+  x ^= x >> 2;
+  x ^= x >> 1;
+  return (int)(x & 1);
+}
